@@ -409,12 +409,13 @@ RECURSIVE Run(_, _)
 Run(s, txt) == IF txt = <<>> THEN s ELSE Run(Consume(s, Head(txt)), Tail(txt))
 
 (* ------------------------------- end of input -------------------------------------------- *)
-FreeKinds == {"sq", "discard", "varq", "nsmapws"}
+\* (the #:ns prefix of a namespaced map owes its map just as a tag owes its form: it is not free)
+FreeKinds == {"sq", "discard", "varq"}
 RECURSIVE Allowed(_)
 Allowed(st) == IF st = <<>> THEN {"ok"}
                ELSE IF Last(st).k \in FreeKinds THEN {"eof", "syntax"} \cup Allowed(Front(st))
                ELSE {"eof"}
-FreeTok(tk) == tk.k \in {"hash", "nsmapns"} \/ (tk.k \in {"chr", "numconst", "var"} /\ tk.t = <<>>)
+FreeTok(tk) == tk.k \in {"hash"} \/ (tk.k \in {"chr", "numconst", "var"} /\ tk.t = <<>>)
 
 (* which listed construct owes a form (for reports) *)
 Why(fr) == CASE fr.k \in {"quote", "deref", "unq", "unqs"} -> "quote-like-prefix"
